@@ -254,7 +254,7 @@ func TestVerif_C06(t *testing.T) {
 		var vkind, vdet string
 		prev := runtime.GOMAXPROCS(1) // buffer pools are per-P: one P makes reuse by the next connection likely
 		p, leftover := vk.InBubble(t, func() {
-			res, _ := authWindow(t, transport, r.Rand("c06w", i))
+			res, _ := authWindow(t, transport, []string{"hook", "manager"}[(i/2)%2], r.Rand("c06w", i))
 			for k, c := range res {
 				name := []string{"the held connection A", "the overlapping connection B"}[k]
 				switch {
